@@ -443,7 +443,7 @@ def witness(rng, case, idx):
     with M.active(case):
         c = C('c', initial_contents=[(water, '10 mL'), (lip, '5 U')])
         try:
-            c.fill_to(lip, '1 mol')      # KF03: solvent has no measure in the target's unit
+            c.fill_to(lip, '1 mol')      # former KF03 (repaired 91d2819): a solvent without measure in the target's unit must be refused
         except Exception:
             pass
 
